@@ -44,6 +44,13 @@ instance {α β : Type} [Wire α] [Wire β] : Wire (α × β) where
     | .list [a, b] => do pure ((← Wire.ofSx a), (← Wire.ofSx b))
     | _ => none
 
+/-- Python `str` values: `s:<text>` -/
+instance : Wire (List Char) where
+  toSx cs := .atom ("s:" ++ String.ofList cs)
+  ofSx
+    | .atom s => if s.startsWith "s:" then some (s.toList.drop 2) else none
+    | _ => none
+
 def exceptToSx {α : Type} [Wire α] : Except String α → Sx
   | .ok v => Wire.toSx v
   | .error e => .list [.atom "err", .atom e]
